@@ -161,6 +161,7 @@ func (vc *VC) execInstr(fr *Frame, instr ssa.Instruction, st *State) {
 		ref := vc.allocRef(st)
 		aid := aidOf(ref, 0)
 		aidn := vc.define("aid", sBV64, aid)
+		vc.freshKeys[aidn] = true
 		et := x.Type().Underlying().(*types.Slice).Elem()
 		for _, l := range layoutOf(et).Leaves {
 			hn := elemHeapName(elemKey(et), l.Path)
@@ -256,6 +257,8 @@ func (vc *VC) allocRef(st *State) string {
 	vc.script = append(vc.script, "(assert (= "+na+" (bvadd "+st.alloc+" (_ bv1 64))))")
 	st.alloc = na
 	vc.nonNil[r] = true
+	vc.freshKeys[r] = true
+	vc.freshKeys[aidOf(r, 0)] = true
 	return r
 }
 
@@ -599,6 +602,7 @@ func (vc *VC) bytesToString(st *State, v Val, to types.Type) Val {
 func (vc *VC) stringToBytes(st *State, v Val, to types.Type) Val {
 	ref := vc.allocRef(st)
 	aid := vc.define("aid", sBV64, aidOf(ref, 0))
+	vc.freshKeys[aid] = true
 	hn := elemHeapName(elemKey(types.Typ[types.Uint8]), "")
 	hs := arrSort(sBV64, arrSort(sBV64, sBV8))
 	h := vc.heapTerm(st, hn, hs)
